@@ -200,6 +200,7 @@ def grep_gate() -> list[str]:
     for f in glob.glob(os.path.join(COQ, 'theories', '*', '*.v')) + glob.glob(os.path.join(GEN, '*.v')):
         txt = open(f).read()
         txt = re.sub(r'\(\*.*?\*\)', '', txt, flags=re.S)
+        txt = re.sub(r'"(?:[^"]|"")*"', '""', txt)   # string literals cannot declare anything
         # Section-local Variable/Hypothesis are allowed only inside a Section ... End block.
         depth = 0
         for ln, line in enumerate(txt.splitlines(), 1):
@@ -410,13 +411,15 @@ class Ctx:
                 m = re.findall(r'File "([^"]+)", line (\d+), characters [^\n]*\n(Error:[^\n]*(?:\n[^\n]+){0,6})', r.log)
                 detail = '; '.join('%s:%s %s' % (os.path.relpath(a, COQ) if os.path.isabs(a) else a, b, ' '.join(c.split())[:400]) for a, b, c in m[:3])
                 self.broken.append(dict(kind='unchecked-obligation', theorem='%s (build of %s failed)' % (', '.join(self.theorems) or prop_rel, ', '.join(failing)), detail=detail or r.log[-1500:]))
+        self.extra['prove_wall_s'] = round(time.time() - self.t0, 1)
         self.checker_cmd = 'cd /verif/coq && make theories/Properties/%s.vo  (coqc 8.16.1, full .vo build; then coqc re-run of the Properties file for Print Assumptions)' % self.pid
 
     # -- correspondence ------------------------------------------------------------------------
-    def correspond(self, name: str, imports: str, ty: str, test: str, cases: Sequence[str], raw: Sequence[Any], prelude: str = '') -> list[int]:
-        bad, err = coq_mismatches(self.pid + '_' + name, imports, ty, test, cases, prelude)
+    def correspond(self, name: str, imports: str, ty: str, test: str, cases: Sequence[str], raw: Sequence[Any], prelude: str = '', shard: int = 400) -> list[int]:
+        t1 = time.time()
+        bad, err = coq_mismatches(self.pid + '_' + name, imports, ty, test, cases, prelude, shard=shard)
         self.corr_cases += len(cases)
-        self.corr_functions.append('%s: %d cases, %d mismatches' % (name, len(cases), len(bad)))
+        self.corr_functions.append('%s: %d cases, %d mismatches, coqc %.1fs' % (name, len(cases), len(bad), time.time() - t1))
         if err:
             self.broken.append(dict(kind='correspondence', theorem='correspondence %s (model did not evaluate)' % name, detail=err[-1500:]))
         if bad:
